@@ -49,7 +49,12 @@ CONSTANTS N,            \* number of block producers; BP = 0..N-1
           MaxRestarts,  \* bound on the number of restarts
           ByzMode,      \* "branch" = a Byzantine producer equivocates but fills Confirms the honest way on every branch;
                         \* "any"    = it also chooses Confirms freely from ByzRanges
-          ByzRanges     \* Confirms values available in mode "any"
+          ByzRanges,    \* Confirms values available in mode "any"
+          Fixes         \* {} = the code as it is.  Names of proposed repairs switched on (design exploration only;
+                        \* every configuration whose behaviours are replayed on the code uses {}):
+                        \*  "attach" the restored status is attached when the Status is created (no LAZY window)
+                        \*  "stale"  a rollback resets the proposals that point above the rollback target (no STALE)
+                        \*  "mono"   the LIB is only ever raised (no UNCOND)
 
 BP      == 0 .. (N - 1)
 Correct == BP \ Byz
@@ -130,7 +135,8 @@ UpdateSt(B, S) ==
   LET w == PreLIB(S.cf)
   IN IF w.hit = 0 THEN {[S EXCEPT !.cf = w.cf]}
      ELSE LET pr2 == [S.pr EXCEPT ![S.cf[Len(S.cf)].bp] = w.cf[w.hit].id]
-          IN {[S EXCEPT !.cf = w.cf, !.pr = pr2, !.lib = l] : l \in CalcLIB(B, pr2)}
+          IN {[S EXCEPT !.cf = w.cf, !.pr = pr2,
+                        !.lib = IF "mono" \in Fixes /\ No(B, l) <= No(B, S.lib) THEN @ ELSE l] : l \in CalcLIB(B, pr2)}
 
 RECURSIVE DropLE(_, _)
 DropLE(cf, n) == IF cf = <<>> \/ cf[1].no > n THEN cf ELSE DropLE(Tail(cf), n)
@@ -154,15 +160,19 @@ TmpFold(B, tip, T, h, end) ==
   IF h > end THEN T ELSE TmpFold(B, tip, TmpStep(B, T, AncAt(B, tip, h)), h + 1, end)
 
 \* libStatus.load(end) over the main chain of `tip` (begRecoBlockNo + loadPlibStatus + merge, STALE, H1)
-Load(B, S, tip, end) ==
-  IF end = 0 THEN [S EXCEPT !.cf = <<>>]
-  ELSE LET libNo == No(B, S.lib)
-           m     == IF end < libNo THEN libNo ELSE end
-           beg   == IF m > Lim THEN m - Lim ELSE 1
-       IN IF beg >= end THEN [S EXCEPT !.cf = <<>>]
-          ELSE LET T == TmpFold(B, tip, [cf |-> <<>>, pr |-> EmptyPr], beg, end)
-               IN [S EXCEPT !.cf = T.cf,
-                            !.pr = [p \in BP |-> IF T.pr[p] # NoPl /\ No(B, T.pr[p]) > 0 THEN T.pr[p] ELSE @[p]]]
+ResetStale(B, pr, end) ==
+  IF "stale" \in Fixes THEN [p \in BP |-> IF pr[p] # NoPl /\ No(B, pr[p]) > end THEN 0 ELSE pr[p]] ELSE pr
+
+Load(B, S1, tip, end) ==
+  LET S == [S1 EXCEPT !.pr = ResetStale(B, @, end)]
+  IN IF end = 0 THEN [S EXCEPT !.cf = <<>>]
+     ELSE LET libNo == No(B, S.lib)
+              m     == IF end < libNo THEN libNo ELSE end
+              beg   == IF m > Lim THEN m - Lim ELSE 1
+          IN IF beg >= end THEN [S EXCEPT !.cf = <<>>]
+             ELSE LET T == TmpFold(B, tip, [cf |-> <<>>, pr |-> EmptyPr], beg, end)
+                  IN [S EXCEPT !.cf = T.cf,
+                               !.pr = [p \in BP |-> IF T.pr[p] # NoPl /\ No(B, T.pr[p]) > 0 THEN T.pr[p] ELSE @[p]]]
 
 \* Status.Update, rollback branch (target = the branch root r)
 RollbackTo(B, S, tip, r) == Gc(B, Load(B, S, tip, No(B, r)))
@@ -252,7 +262,7 @@ Restart(i) ==
   /\ node[i].best # 0
   /\ LET n == node[i]
          S == Load(blk, StOf(n), n.best, No(blk, n.best))
-     IN node' = [node EXCEPT ![i] = [WithSt(n, S) EXCEPT !.bfl = S.lpb, !.ld = FALSE]]
+     IN node' = [node EXCEPT ![i] = [WithSt(n, S) EXCEPT !.bfl = S.lpb, !.ld = ("attach" \in Fixes)]]
   /\ restarts' = restarts + 1
   /\ lastAct' = [name |-> "Restart", node |-> i, b |-> 0, res |-> "restarted"]
   /\ UNCHANGED blk
@@ -297,14 +307,15 @@ NoForkBelowLib ==
              => No(blk', ComAnc(blk', node[i].best, node'[i].best)) >= No(blk, node[i].lib)
        /\ \A b \in node'[i].known \ node[i].known : No(blk', b) > No(blk, node[i].lib)]_vars
 
-\* a new LIB has been confirmed by blocks of more than two thirds of the producers: distinct producers of main-chain
-\* blocks whose confirm range contains the LIB
-Confirmers(B, tip, l) ==
-  {B[x].bp : x \in {y \in 1 .. Len(B) : /\ IsAnc(B, y, tip) /\ B[y].no >= No(B, l)
-                                         /\ B[y].no - B[y].conf + 1 >= 0 /\ B[y].no - B[y].conf + 1 <= No(B, l)}}
+\* a new LIB has been confirmed by blocks of more than two thirds of the producers: distinct producers of blocks the
+\* node has stored that descend from the LIB (or are it) and whose confirm range contains it.  (Blocks of an abandoned
+\* branch count: their producers did confirm the LIB, which is an ancestor of both branches.)
+Confirmers(B, kn, l) ==
+  {B[x].bp : x \in {y \in kn : /\ IsAnc(B, l, y)
+                               /\ B[y].no - B[y].conf + 1 >= 0 /\ B[y].no - B[y].conf + 1 <= No(B, l)}}
 LibQuorum ==
   [][\A i \in Nodes : (node'[i].lib # node[i].lib /\ node'[i].lib # 0)
-        => Cardinality(Confirmers(blk', node'[i].best, node'[i].lib)) >= Req]_vars
+        => Cardinality(Confirmers(blk', node'[i].known, node'[i].lib)) >= Req]_vars
 
 \* two correct nodes never hold irreversible blocks on conflicting branches
 Agreement == \A i, j \in Nodes : IsAnc(blk, node[i].lib, node[j].lib) \/ IsAnc(blk, node[j].lib, node[i].lib)
